@@ -27,10 +27,14 @@ MANIFEST = {
                  'differential check of these models against the real functions (the schema interpreter against the '
                  'real jsonschema on every value the parsers validate); time-limited totality/stability monitor over a '
                  'structure-aware mutation stream on every parser/service/validate entry point',
-    'text': 'Theorems: cutDef (= _parse_def_from_wb) returns exactly the dedented member for every canonically '
-            'rendered workbook whose section keyword first occurs at the section line and whose member name does not '
-            'equal an earlier stripped line (cutDef_correct_partial; the unrestricted statement is refuted by a '
-            'witness that is replayed on the real code); normalisation is idempotent; graph validation accepted '
+    'text': 'Theorems: the definition text stored for a workbook member (_get_member_definition: the text cut of '
+            '_parse_def_from_wb, verified against the parsed workbook, else the member dumped; repo patch 31) parses to '
+            'exactly that member for EVERY workbook text, section and name, under the one assumption that a dumped '
+            'member parses back to itself (cut_is_the_member; member_definition_total: no ValueError); the text cut '
+            'alone is right for canonically rendered workbooks meeting P1, P2 (cutDef_correct_partial, then the '
+            "author's text is kept: canonical_member_text_kept) and wrong otherwise (cutDef_correct_full_fails, the "
+            'witnesses are regressions now: witnesses_repaired); '
+            'normalisation is idempotent; graph validation accepted '
             'implies start task exists, every transition target / requirement exists, every join has enough inbound '
             'tasks and (reverse) requires has no cycle, also through task-defaults requires (accept_iff_wellformed with '
             'the validator rule of repo fix fd108744 = Mistral.Reverse.requiresAcyclic, complete and sound: '
@@ -68,7 +72,11 @@ RULE = ('documents = bundled YAML + generated workflow lists/workbooks/action li
         'every document goes to all three parsers and, when a parser accepts, to the services. A case is non-trivial '
         'when at least one entry point got past YAML parsing and schema type-of-root checks (verdict is not the same '
         'for all three parsers) or it was accepted; distinct = distinct text. cut/norm/graph streams: non-trivial '
-        'when the item is found / a key is injected / the graph has a transition, join or requirement. schema stream: '
+        'when the item is found / a key is injected / the graph has a transition, join or requirement. memberdef: '
+        'workbooks in 5 layouts +- comments, text damage, corner texts, soups x section x member/other names: model '
+        'memberDefinition vs get_workflow_definition / get_action_definition, YAML oracle answered by the real '
+        'parse_yaml / safe_yaml.dump; non-trivial = the parsed workbook has the member; yamlrt: every such member: '
+        'parse_yaml(dump(member)) == member. schema stream: '
         'cases = (spec class, value) pairs: every call of BaseSpec.validate_schema the real parsers/services made on '
         'those documents (recorded), every node of every parsed document against the classes of its role (raw and '
         'with the name/version/type injections), random node x class pairs, ~220 hand-written corner values x every '
@@ -111,7 +119,9 @@ TRUSTED = [
     'regular-expression dependent parts of normalisation (inline `key=value` parameters) are given to the model as '
     'oracle bits computed by the real _parse_cmd_and_input',
     'cutDef_correct is about canonically rendered block-style workbooks (no blank/comment lines inside members); '
-    'other layouts are covered by the monitor only',
+    'cut_is_the_member covers every text but treats PyYAML as an oracle (parse / dump over values compared with python '
+    '==) with the hypothesis parse(dump m) = m, tied by stream yamlrt on the members seen, not proved; python == does '
+    'not tell 1 from True / 1.0',
 ]
 ASSUMPTIONS = ['skip_validation / validation_mode=disabled is outside the property (the user opted out of validation)']
 
@@ -888,13 +898,21 @@ def correspond(ctx):
     # ---- A. "a run behaves identically after an engine restart or cache eviction": a running execution re-reads
     # ITS OWN stored specification even when the definition was replaced meanwhile (stream defupdate, real engine)
     from vlib import par
-    par.run_parallel(ctx, 'harness.defupdate_stream', 'run_chunk', [{'n_cases': ctx.n(5, 120)}] * 14)
+    if not os.environ.get('C14_SKIP_DEFUPDATE'):      # measurement knob only (CPU accounting of the sequential part)
+        par.run_parallel(ctx, 'harness.defupdate_stream', 'run_chunk', [{'n_cases': ctx.n(5, 120)}] * 14)
     st = env()
     from harness import schema_stream as S
     S.install(st)              # records every (spec class, data) the real parsers / services validate
     rng = ctx.rng
     limit = LIMIT_Q
     t_start = time.time()
+    stages = ctx.cov.setdefault('stage_cpu_s', {})
+    _last = [time.process_time()]
+
+    def stage(name):
+        now = time.process_time()
+        stages[name] = round(stages.get(name, 0.0) + now - _last[0], 1)
+        _last[0] = now
     budget = ctx.n(85, 660)           # seconds for the lang stream
     # ---- 0. corpus: replay files of past findings / counter-witnesses (run first)
     import glob
@@ -905,6 +923,7 @@ def correspond(ctx):
         if r.get('kind') == 'doc' and 'text' in r:
             run_doc(ctx, st, r['text'], 'corpus:' + os.path.basename(f), limit)
             ctx.count('lang', 'origin:corpus')
+    stage('corpus')
     # ---- 1. bundled documents (always all of them)
     bundled = seeds(ctx, st)
     pool = []                          # (origin, dict) accepted seed dicts for mutation
@@ -916,17 +935,20 @@ def correspond(ctx):
         ctx.count('lang', 'origin:bundled')
         if acc and d is not None and len(text) < 20000:
             pool.append((origin, d))
+    stage('bundled')
     # ---- 2. hand-written corner texts (always all of them)
     for name, text in G.TEXT_DOCS:
         run_doc(ctx, st, text, 'corner:' + name, limit)
         ctx.count('lang', 'origin:corner')
     run_targeted(ctx, st, limit)
     # ---- 2b. scaling probes ("never hangs", decided on CPU-time growth, not on a wall-clock limit)
+    stage('corner+targeted')
     S.pause()                  # the probes measure CPU time of the unmodified validation
     try:
         run_probes(ctx, st)
     finally:
         S.resume()
+    stage('probes')
     # ---- 3. generated valid definitions in all syntactic forms
     n_gen = ctx.n(120, 1500)
     gen_pool = []
@@ -946,6 +968,7 @@ def correspond(ctx):
         if i < 2:
             ctx.sample({'stream': 'lang', 'origin': 'gen:' + g['kind'], 'text': text[:400], 'verdicts': verdicts})
     pool += gen_pool
+    stage('generated')
     # ---- 4. mutants
     n_mut = ctx.n(1000, 50000)
     done = 0
@@ -977,15 +1000,24 @@ def correspond(ctx):
         if done in (5, 50):
             ctx.sample({'stream': 'lang', 'origin': org, 'text': text[:300], 'verdicts': verdicts})
     ctx.count('lang', 'mutants', done)
+    stage('mutants')
     # ---- 5. the seam check: memo off on a sample
     seam(ctx, st, pool, rng)
+    stage('seam')
     # ---- 6. model correspondence
     from harness import lang_model as M
     M.correspond_model(ctx, st, pool)
+    stage('model-streams')
     # ---- 6b. schema level: Lean interpreter over the generated schemas vs the real validate_schema
     S.run(ctx, st)
+    stage('schema-streams')
     # ---- 7. /validate controllers
     api_validate(ctx, st, pool, rng, limit)
+    stage('api')
+    import resource
+    ru_s, ru_c = resource.getrusage(resource.RUSAGE_SELF), resource.getrusage(resource.RUSAGE_CHILDREN)
+    ctx.cov['cpu_s'] = {'self': round(ru_s.ru_utime + ru_s.ru_stime, 1), 'children': round(ru_c.ru_utime + ru_c.ru_stime, 1),
+                        'wall_since_start_of_check': round(time.time() - ctx.t0, 1)}
     # margin of the watchdog: slowest call that did finish, as a fraction of its time limit
     ctx.cov['slowest_finished_call_fraction_of_cpu_limit'] = round(st.get('max_fraction_of_limit', 0.0), 4)
     ctx.cov['cpu_limit_s'] = round(st['cpu_limit'], 2)
